@@ -4,7 +4,8 @@ import Compute.Model.Kernels
 import Compute.Model.Stats
 /-
 Driver for C08 (model at `Float`).  Requests (the implementation-side `form` and `tag` tokens are
-dropped by `model_line` in tools/cv/c08.py):
+dropped by `model_line` in tools/cv/c08.py; the three call forms — free function, `Vector` method,
+`Matrix` method — are one-line forwards in the source and share this one model):
   `<op> <vec>`            op ∈ mean wmean var svar std sstd min max argmin argmax hbc
   `<op> <vec x> <vec y>`  op ∈ cov scov scov1 scovo
   `margmin|margmax r c <r*c floats>`
